@@ -69,6 +69,37 @@ Theorem C17_commit_preserves : forall r0 l st d force,
 Proof. exact disk_commit_ok. Qed.
 Print Assumptions C17_commit_preserves.
 
+(* every operation (Update of a transition that is well-formed on the caller's head
+   state, Commit, cap, Recover), successful or refused, leads from a represented state
+   to a represented state; a refused operation leaves the database untouched *)
+Theorem C17_op_preserves : forall r0 l st o,
+  Inv r0 l st -> ix st = None ->
+  (forall t, o = OUpdate t -> wf_tr (head_state st) t) ->
+  (exists l' st', do_op st o = Done st' /\ Inv r0 l' st' /\ ix st' = None) \/
+  (exists e, do_op st o = Fail e st).
+Proof. exact op_preserves. Qed.
+Print Assumptions C17_op_preserves.
+
+(* hence for ALL histories of operations from the empty database *)
+Theorem C17_reach_inv : forall c r0 st,
+  reach c r0 st -> exists l, Inv r0 l st /\ ix st = None.
+Proof. exact reach_inv. Qed.
+Print Assumptions C17_reach_inv.
+
+(* the rollback theorem without any invariant hypothesis: in every state reachable by
+   any history of operations, a root reported recoverable is rolled back to exactly *)
+Theorem C17_recover_exact_reach : forall c r0 st root,
+  reach c r0 st -> recoverable st root = true ->
+  exists l0 pre l st',
+    Inv r0 l0 st /\ l0 = pre ++ l /\ pre <> [] /\ root_rev r0 l = root /\
+    ids st root = Some (len l) /\ recover st root = Done st' /\ Inv r0 l st' /\
+    (forall k, eff (dk st') k = sem_rev l k) /\
+    disk_root (dk st') = root /\ disk_id (dk st') = len l /\
+    fr_head (fr st') = len l /\ fr_tail (fr st') = fr_tail (fr st) /\
+    fr_data (fr st') = fr_data (fr st) /\ diffs st' = [].
+Proof. exact recover_exact_reach. Qed.
+Print Assumptions C17_recover_exact_reach.
+
 (* creation with storage, destruct with storage, re-creation; two histories in the
    buffer; Recover across both succeeds and restores the state after the first *)
 Example C17_nonvacuous : ex_check = true.
